@@ -355,7 +355,10 @@ class CallMixin:
             if fty is not None and isinstance(fty, TRef):
                 # a callable object kept in a field (self.f(...)): its __call__ contract
                 fobj = self.heap_read(st, obj, attr)
-                yield from self.call_attr(fobj, "__call__", args, kwargs, st, node)
+                star_only = isinstance(node, ast.Call) and len(node.args) == 1 and isinstance(node.args[0], ast.Starred) and not node.keywords \
+                    and len(args) == 1 and not isinstance(args[0], PyList)
+                # f(*seq): all positional arguments come from one sequence of unknown length - the interface method __call_star__(self, rest)
+                yield from self.call_attr(fobj, "__call_star__" if star_only else "__call__", args, kwargs, st, node)
                 return
             if fty is not None:    # callable stored in a field: not supported
                 raise Unsupported("call of field %s" % attr, node)
